@@ -256,6 +256,33 @@ func exceptionText(value Value) (text string) {
 	return value.string()
 }
 
+// currentErrorText gives an uncaught Error object the name and message the
+// script left on it (it may have assigned either before throwing). Reading
+// them can run script code; if that throws, what the object was created with stays.
+func currentErrorText(obj *object, vl ottoError) (result ottoError) {
+	result = vl
+	defer func() {
+		if caught := recover(); caught != nil {
+			switch caught := caught.(type) {
+			case interruptPanic:
+				panic(caught.value)
+			case *exception, ottoError, *Error, Value:
+				result = vl
+			default:
+				panic(caught)
+			}
+		}
+	}()
+	name, message := obj.get("name"), obj.get("message")
+	if name.IsString() {
+		result.name = name.string()
+	}
+	if message.IsString() {
+		result.message = message.string()
+	}
+	return result
+}
+
 func catchPanic(function func()) (err error) {
 	defer func() {
 		if caught := recover(); caught != nil {
@@ -273,9 +300,9 @@ func catchPanic(function func()) (err error) {
 				err = &Error{caught}
 				return
 			case Value:
-				if vl := caught.object(); vl != nil {
-					if vl, ok := vl.value.(ottoError); ok {
-						err = &Error{vl}
+				if obj := caught.object(); obj != nil {
+					if vl, ok := obj.value.(ottoError); ok {
+						err = &Error{currentErrorText(obj, vl)}
 						return
 					}
 				}
